@@ -17,12 +17,15 @@ what the implementation created: a declared name that silently stays a plain att
 descriptor that lacks `env_var` are oracle findings / differences to the model, not harness errors.
 """
 import ast
+import collections
+import collections.abc
 import enum
 import json
 import math
 import os
 import pathlib
 import traceback
+import typing
 
 from .. import core
 from ..translate import c20_config
@@ -35,12 +38,17 @@ RULE = ("(a) histories: 1-3 config classes (the core Config with the names of it
         "classes, hand-written ConfigMeta metaclasses; value names of every shape str.isupper() accepts - single letters, digits, "
         "inner/trailing/double underscores, non-ASCII capitals - next to attributes that must stay plain - leading underscore, "
         "lower/mixed case, uncased letters; values of "
-        "every supported type, custom parsers, env_var overrides, shared prefixes) x 4-24 operations "
+        "every supported type AND of types related to them by subclassing - enum classes mixing in str / int ((str, Enum), StrEnum, "
+        "(int, Enum), IntEnum, IntFlag), bool next to int, user-defined subclasses (also of subclasses) of str / int / float / "
+        "PosixPath / list / tuple / dict, OrderedDict, NamedTuples - custom parsers, env_var overrides, shared prefixes) x 4-24 operations "
         "(assign incl. falsy/None/foreign values, delete incl. of unset values, setenv with rendered values in letter-case / "
-        "blank variants, known-unparseable and random texts, unsetenv, bulk update incl. unknown names); every declared value is "
-        "read after every operation. non-trivial = at least one environment change AND one explicit change; distinct by the "
+        "blank variants, known-unparseable and random texts, unsetenv, bulk update incl. unknown names, C.update(C.to_dict())); "
+        "every declared value is read after every operation, to_dict() after class creation and the return value of every update "
+        "are compared. non-trivial = at least one environment change AND one explicit change; distinct by the "
         "canonical case. (b) direct parse calls: per type rendered values with decorations, malformed and random texts. "
-        "(c) str(int) / ','.join / str.isupper (every code point below 256, random Latin-1 names) against the model's functions.")
+        "(c) str(int) / ','.join / str.isupper (every code point below 256, random Latin-1 names) against the model's functions; "
+        "the model's type lattice (which dispatch classes a type is / is a subclass of) against CPython's issubclass for every "
+        "type the generators use.")
 ASSUMPTIONS = [
     "CPython int()/float()/Path()/str.strip/str.lower/str.upper/os.getenv/enum lookup are parameters: the model covers ASCII "
     "case mapping and the white space of the Latin-1 range; float and Path text forms are symbolic in the model "
@@ -49,6 +57,11 @@ ASSUMPTIONS = [
     "an explicitly assigned None counts as 'not set' (the implementation's sentinel); the oracle does not judge it",
     "attribute names: the model's str.isupper covers the cased characters below code point 256 (table compared with CPython on "
     "every run) and treats everything above as uncased; the generators use Latin-1 letters and uncased CJK letters only",
+    "for an IntFlag default `E(n)` with a number that is no member's value is CPython's own (combination of flags): symbolic in "
+    "the model, evaluated by the harness; a NamedTuple default has no text form in the statement: the fields as comma-separated "
+    "list are accepted, not demanded (the implementation raises TypeError); str(<generator>) holds an address: one token",
+    "ConfigMeta.to_dict returns the descriptors (not the resolved values): modelled as the source has it; the oracle judges the "
+    "NAMES it lists (exactly the configuration values), not which of the two readings the objects under them have",
     "lower-case value names (possible only on hand-written metaclasses) use the upper-cased name in the environment variable; "
     "without a prefix the variable name is not judged by the oracle (the model mirrors the module-derived prefix)",
 ]
@@ -107,8 +120,8 @@ def should_be_config(name):
 def translate(ctx):
     try:
         data, changed = c20_config.emit(core.REPO, core.LEAN_DIR)
-        ctx.notes["translated"] = {k: v for k, v in data.items() if k in ("parseOrder", "getOrder", "enumLookups",
-                                                                           "updateRaises", "envNameNorm")}
+        ctx.notes["translated"] = {k: v for k, v in data.items() if k in ("parseTests", "getOrder", "enumLookups",
+                                                                           "updateRaises", "envNameNorm", "initStores")}
         ctx.notes["gen_changed"] = changed
     except c20_config.Gap as e:
         ctx.tie_breaks.append(f"config.py left the translatable subset: {e}")
@@ -133,7 +146,8 @@ def _always_raise(s):
 PARSERS = [int, lambda s: s.strip().upper(), _always_raise, len, lambda s: None, lambda s: s.split(";")]
 CTORS = [float, type(None)]     # `other<k>`: types whose constructor the model leaves symbolic
 
-# enum shapes: (class name, base, [(name, value)]) ; "real" = pyroll's own PlottingBackend
+# enum shapes: (class name, base, [(name, value)]) ; "real" = pyroll's own PlottingBackend.  The bases cover the data types an
+# enum class can mix in: none (Enum), int (IntEnum, class E(int, Enum)), str (class E(str, Enum), StrEnum), IntFlag.
 ENUMS = [
     ("PB", "real", None),
     ("Mixed", "Enum", [("Lower", 1), ("UPPER", 2), ("Mixed_Case", 3), ("lower", 4)]),
@@ -141,7 +155,18 @@ ENUMS = [
     ("Alias", "Enum", [("A", 1), ("B", 2), ("ALIAS_OF_A", 1)]),
     ("Shadow", "Enum", [("A", 1), ("a", 2), ("Ab", 3)]),
     ("Up", "Enum", [("ON", 1), ("OFF", 2), ("AUTO_MODE", 3)]),
+    ("Kind", "StrMix", [("FAST", "fast"), ("SLOW", "slow"), ("Very_Slow", "very-slow"), ("x9", "X9"), ("TEN", "10")]),
+    ("Stage", "StrEnum", [("ROUGH", None), ("FINE", None), ("Final_Pass", None)]),
+    ("Prio", "IntMix", [("LOW", 1), ("HIGH", 2), ("Mid", 5)]),
+    ("Perm", "IntFlag", [("R", 4), ("W", 2), ("X", 1), ("RW", 6)]),
 ]
+MIX = {"real": "P", "Enum": "P", "IntEnum": "I", "IntMix": "I", "StrMix": "S", "StrEnum": "S", "IntFlag": None}
+_ENUM_CACHE = {}
+
+
+def enum_mix(i):
+    """the model's name of what enum class #i mixes in: P(lain) / I(nt) / S(tr) / F<i> (IntFlag)"""
+    return MIX[ENUMS[i][1]] or f"F{i}"
 
 
 def make_enum(i):
@@ -150,26 +175,136 @@ def make_enum(i):
         pb = getattr(cfgmod(), "PlottingBackend", None)
         if isinstance(pb, type) and issubclass(pb, enum.Enum) and all(isinstance(m.value, int) for m in pb):
             return pb
-        return enum.Enum("PlottingBackend", [("PLOTLY", 1), ("MATPLOTLIB", 2)])     # the shape documented for the core
-    cls = enum.IntEnum if base == "IntEnum" else enum.Enum
-    return cls(name, members)
+        if i not in _ENUM_CACHE:        # the shape documented for the core
+            _ENUM_CACHE[i] = enum.Enum("PlottingBackend", [("PLOTLY", 1), ("MATPLOTLIB", 2)])
+        return _ENUM_CACHE[i]
+    if i not in _ENUM_CACHE:            # one class per shape and process: members of different worlds stay comparable
+        if base == "StrMix":
+            cls = enum.Enum(name, members, type=str)                       # class Kind(str, Enum)
+        elif base == "StrEnum":
+            cls = enum.StrEnum(name, [(n, enum.auto()) for n, _ in members])
+        elif base == "IntMix":
+            cls = enum.Enum(name, members, type=int)                       # class Prio(int, Enum)
+        elif base == "IntFlag":
+            cls = enum.IntFlag(name, members)
+        else:
+            cls = (enum.IntEnum if base == "IntEnum" else enum.Enum)(name, members)
+        _ENUM_CACHE[i] = cls
+    return _ENUM_CACHE[i]
+
+
+def member_id(m):
+    """the integer the model (and the tokens) identify a member by: its value, or a serial number when the values are texts"""
+    if isinstance(m.value, int):
+        return int(m.value)
+    return 1 + list(type(m)).index(m)
+
+
+def member_of_id(ecls, k):
+    if all(isinstance(m.value, int) for m in ecls):
+        return ecls(k)
+    return list(ecls)[k - 1]
 
 
 def enum_members(ecls):
-    return [(n, m.value) for n, m in ecls.__members__.items()]
+    """(name, id) of `__members__` (aliases included)"""
+    return [(n, member_id(m)) for n, m in ecls.__members__.items()]
+
+
+# ---------------------------------------------------------------------------------------------------------------------
+# user-defined classes deriving from the built-in value types (index = the model's class number in `sub<k>` / `U<k>:`)
+# ---------------------------------------------------------------------------------------------------------------------
+class VStr(str):
+    pass
+
+
+class VInt(int):
+    pass
+
+
+class VFloat(float):
+    pass
+
+
+class VList(list):
+    pass
+
+
+class VTuple(tuple):
+    pass
+
+
+class VDict(dict):
+    pass
+
+
+class VPath(type(pathlib.Path())):
+    pass
+
+
+class VList2(VList):
+    pass
+
+
+class VStr2(VStr):
+    pass
+
+
+Pair = collections.namedtuple("Pair", "first second")
+
+
+class Triple(typing.NamedTuple):
+    x: str
+    y: str
+    z: str
+
+
+# (class, kind of the built-in root, index of the parent class in this table | None, number of fields of a NamedTuple | None)
+SUBS = [(VStr, "str", None, None), (VInt, "int", None, None), (VFloat, "float", None, None), (VList, "list", None, None),
+        (VTuple, "tuple", None, None), (VDict, "dict", None, None), (VPath, "path", None, None), (VList2, "list", 3, None),
+        (collections.OrderedDict, "dict", None, None), (Pair, "ntuple", None, 2), (Triple, "ntuple", None, 3),
+        (VStr2, "str", 0, None)]
+SUB_INDEX = {c: k for k, (c, _, _, _) in enumerate(SUBS)}
+SUBS_OF_KIND = {}
+for _k, (_c, _kind, _, _) in enumerate(SUBS):
+    SUBS_OF_KIND.setdefault(_kind, []).append(_k)
+GARBAGE = "<generator object"           # `str(<generator>)`: a text holding an address - canonical token `G`
+
+
+def sub_base_value(v):
+    """the built-in value inside an instance of one of the classes above"""
+    _, kind, _, _ = SUBS[SUB_INDEX[type(v)]]
+    return {"str": str, "int": int, "float": float, "list": list, "tuple": tuple, "dict": dict, "ntuple": tuple,
+            "path": lambda p: pathlib.Path(str(p))}[kind](v)
+
+
+def sub_make(k, base):
+    """an instance of class #k from the built-in value"""
+    cls, kind, _, arity = SUBS[k]
+    return cls(*base) if kind == "ntuple" else cls(base)
 
 
 class World:
-    """python objects of one execution of a case: enum classes and the pool of opaque objects"""
+    """python objects of one execution of a case: enum classes, the pool of opaque objects, the config classes built"""
 
     def __init__(self, case):
         self.enums = {i: make_enum(i) for i in sorted({v["enum"] for c in case["classes"] for v in c["values"]
                                                       if v.get("enum") is not None} | set(case.get("enums", [])))}
         self.pool = [mk_obj(d) for d in case["pool"]]
+        self.classes = []           # [(class, defaults)] - filled by exec_case (descriptor tokens `C<class>:<name>`)
 
     def value(self, tok, enum_idx=None):
         """token -> python value (explicit values / defaults)"""
         k, r = tok[0], tok[1:]
+        if k == "U":
+            sub, base = r.split(":", 1)
+            return sub_make(int(sub), self.value(base))
+        if k == "C":
+            ci, n = r.split(":")
+            d = desc_of(self.classes[int(ci)][0], dec_text(n))
+            if d is None:
+                raise ImplBroken("declared-name-not-config-value", f"class {ci} has no descriptor {dec_text(n)!r}")
+            return d
         if k == "N":
             return None
         if k == "B":
@@ -182,7 +317,7 @@ class World:
             return pathlib.Path(dec_text(r))
         if k == "E":
             e, v = r.split("#")
-            return self.enums[int(e)](int(v))
+            return member_of_id(self.enums[int(e)], int(v))
         if k == "L":
             return [dec_text(x) for x in r.split(",")] if r else []
         if k == "T":
@@ -197,17 +332,19 @@ class World:
         """python value -> canonical token (type strict)"""
         if v is None:
             return "N"
+        if type(v) in SUB_INDEX:
+            return f"U{SUB_INDEX[type(v)]}:" + self.token(sub_base_value(v))
         if isinstance(v, enum.Enum):
-            return f"E{v.value}"
+            return f"E{member_id(v)}"
         if isinstance(v, bool):
             return "B1" if v else "B0"
-        if isinstance(v, int):
+        if type(v) is int:
             return f"I{v}"
-        if isinstance(v, float):
+        if type(v) is float:
             return "F" + repr(v)
-        if isinstance(v, str):
-            return "S" + enc_text(v)
-        if isinstance(v, pathlib.PurePath):
+        if type(v) is str:
+            return "G" if v.startswith(GARBAGE) else "S" + enc_text(v)
+        if type(v) is type(pathlib.Path()):
             return "P" + enc_text(str(v))
         if type(v) is list and all(type(x) is str for x in v):
             return "L" + ",".join(enc_text(x) for x in v)
@@ -215,6 +352,14 @@ class World:
             return "T" + ",".join(enc_text(x) for x in v)
         if type(v) is dict and all(type(a) is str and type(b) is str for a, b in v.items()):
             return "D" + ",".join(enc_text(a) + ":" + enc_text(b) for a, b in v.items())
+        try:
+            if isinstance(v, api("ConfigValue")):
+                for ci, (cls, _) in enumerate(self.classes):
+                    for n, d in vars(type(cls)).items():
+                        if d is v:
+                            return f"C{ci}:{enc_text(n)}"
+        except ImplBroken:
+            pass
         for i, o in enumerate(self.pool):
             if o is v:
                 return f"O{i}"
@@ -227,23 +372,43 @@ class World:
         """model output line -> the canonical form used for the implementation"""
         if not line.startswith("ok "):
             return line
-        tok = line[3:]
+        try:
+            return "ok " + self.canon_token(line[3:])
+        except _Raised as e:
+            return "err " + e.args[0]
+
+    def canon_token(self, tok):
         k, r = tok[0], tok[1:]
+        if k == "U":
+            sub, base = r.split(":", 1)
+            return f"U{sub}:" + self.canon_token(base)
         if k == "O":
-            return "ok " + self.token(self.pool[int(r)])
+            return self.token(self.pool[int(r)])
         if k == "P":
-            return "ok P" + enc_text(str(pathlib.Path(dec_text(r))))
+            return "P" + enc_text(str(pathlib.Path(dec_text(r))))
         if k == "Y":
             c, t = r.split(":")
+            c = int(c)
+            if c == 2:
+                return "G"
             try:
-                return "ok " + self.token(CTORS[int(c)](dec_text(t)))
+                if c >= 100:                # IntFlag class #(c - 100) called with the number the text stands for
+                    return self.token(make_enum(c - 100)(int(dec_text(t))))
+                return self.token(CTORS[c](dec_text(t)))
             except Exception as e:
-                return "err " + err_name(e)
-        return line
+                raise _Raised(err_name(e))
+        return tok
+
+
+class _Raised(Exception):
+    pass
 
 
 def model_token(tok):
     """harness token -> model token (the model's enum values carry no class)"""
+    if tok[0] == "U":
+        sub, base = tok[1:].split(":", 1)
+        return f"U{sub}:" + model_token(base)
     if tok[0] == "E":
         return "E" + tok.split("#")[1]
     return tok
@@ -285,14 +450,29 @@ def same(a, b):
 # ---------------------------------------------------------------------------------------------------------------------
 # the oracle's reading of the property text: what must a text of a given kind parse to
 # ---------------------------------------------------------------------------------------------------------------------
+def type_of(world, v):
+    """the TYPE OF THE DEFAULT of a value spec (the class the environment text must be parsed to)"""
+    if v.get("sub") is not None:
+        return SUBS[v["sub"]][0]
+    k = v["kind"]
+    if k == "enum":
+        return world.enums[v["enum"]]
+    return {"bool": bool, "int": int, "float": float, "str": str, "path": type(pathlib.Path()), "list": list, "tuple": tuple,
+            "dict": dict, "none": type(None)}[k]
+
+
 def expect_parse(world, v, text):
-    """-> ("value", obj) | ("raises",) | ("oneof", [objs]) (one of them or an exception) | ("free",)"""
+    """-> ("value", obj) | ("raises",) | ("oneof", [objs]) (one of them or an exception) | ("free",)
+    The statement: the environment text is parsed TO THE TYPE OF THE DEFAULT (`same` is type strict: for a default that is an
+    instance of a subclass of a built-in type the result must be an instance of that subclass; for an enum default - whatever
+    data type the enum mixes in - the member); the parse inverts the text form; unparseable text raises."""
     if v.get("parser") is not None:
         try:
             return ("value", PARSERS[v["parser"]](text))          # the user's own function, applied directly
         except Exception:
             return ("raises",)
     kind = v["kind"]
+    T = type_of(world, v)
     if kind == "bool":                                             # booleans in any letter case (blanks tolerated)
         core_ = text.strip().lower()
         if core_ == "true":
@@ -302,38 +482,45 @@ def expect_parse(world, v, text):
         return ("raises",)
     if kind in ("int", "float"):                                   # numbers: CPython's own reading is the reference
         try:
-            return ("value", (int if kind == "int" else float)(text))
+            return ("value", T((int if kind == "int" else float)(text)))
         except ValueError:
             return ("raises",)
     if kind == "str":
-        return ("value", text)
+        return ("value", T(text))
     if kind == "path":
-        return ("value", pathlib.Path(text))
+        return ("value", T(text))
     if kind == "enum":
-        ecls = world.enums[v["enum"]]
+        ecls = T
         members = ecls.__members__
         by_name = members.get(text)
         by_num = None
-        try:
-            n = int(text)
-            by_num = next((m for m in members.values() if m.value == n), None)
-        except ValueError:
-            pass
+        if all(isinstance(m.value, int) for m in ecls):            # "by number" exists for integer-valued members only;
+            try:                                                   # which number names which member is the enum's own business
+                by_num = ecls(int(text))                           # (an IntFlag accepts combinations)
+            except ValueError:
+                pass
         if by_name is not None and by_num is not None and by_name is not by_num:
             return ("oneof", [by_name, by_num])
         if by_name is not None:
             return ("value", by_name)                              # enum member by name
         if by_num is not None:
             return ("value", by_num)                               # enum member by number
-        loose = [m for n_, m in members.items() if n_.lower() == text.strip().lower()]
+        key = text.strip().lower()
+        loose = [m for n_, m in members.items() if n_.lower() == key or (isinstance(m.value, str) and m.value.lower() == key)]
         if loose:
-            return ("oneof", loose)                                # other letter case / blanks: not promised, not forbidden
+            return ("oneof", loose)            # other letter case / blanks / the member's text value: not promised, not forbidden
         return ("raises",)
     if kind in ("list", "tuple"):
         if text == "":
-            return ("oneof", [[], [""]] if kind == "list" else [(), ("",)])
+            return ("oneof", [T([]), T([""])])
+        return ("value", T([p.strip() for p in text.split(",")]))
+    if kind == "ntuple":
+        # a NamedTuple has no text form of its own in the statement: the fields as a comma-separated list are the natural
+        # candidate - accepted, not demanded (the constructor wants the fields one by one; see notes)
         items = [p.strip() for p in text.split(",")]
-        return ("value", items if kind == "list" else tuple(items))
+        if len(items) == SUBS[v["sub"]][3]:
+            return ("oneof", [T(*items)])
+        return ("raises",)
     if kind == "dict":
         if text.strip() == "":
             return ("free",)
@@ -343,8 +530,15 @@ def expect_parse(world, v, text):
                 return ("raises",)
             k_, v_ = p.split("=")
             res[k_.strip()] = v_.strip()
-        return ("value", res)
+        return ("value", T(res))
     return ("free",)                                               # None default etc.: no text form
+
+
+def show(x):
+    """repr with the class where the repr alone does not tell it (instances of subclasses of str / int / list …)"""
+    return repr(x) if type(x) in (bool, int, float, str, list, tuple, dict, type(None)) or isinstance(x, (enum.Enum, pathlib.PurePath)) \
+        and type(x) not in SUB_INDEX else f"{type(x).__name__}({repr(x)})" if type(x) in SUB_INDEX and not hasattr(x, "_fields") \
+        else repr(x)
 
 
 def judge(world, exp, got, exc):
@@ -352,14 +546,14 @@ def judge(world, exp, got, exc):
     if exp[0] == "free":
         return None
     if exp[0] == "raises":
-        return None if exc is not None else f"returned {got!r} instead of raising"
+        return None if exc is not None else f"returned {show(got)} instead of raising"
     if exp[0] == "oneof":
         if exc is not None or any(same(got, o) for o in exp[1]):
             return None
-        return f"returned {got!r}, expected one of {exp[1]!r} (or an exception)"
+        return f"returned {show(got)}, expected one of [{', '.join(show(o) for o in exp[1])}] (or an exception)"
     if exc is not None:
-        return f"raised {type(exc).__name__}: {exc} instead of returning {exp[1]!r}"
-    return None if same(got, exp[1]) else f"returned {got!r} instead of {exp[1]!r}"
+        return f"raised {type(exc).__name__}: {exc} instead of returning {show(exp[1])}"
+    return None if same(got, exp[1]) else f"returned {show(got)} instead of {show(exp[1])}"
 
 
 # ---------------------------------------------------------------------------------------------------------------------
@@ -367,6 +561,14 @@ def judge(world, exp, got, exc):
 # ---------------------------------------------------------------------------------------------------------------------
 def ty_token(world, v):
     k = v["kind"]
+    if v.get("sub") is not None:
+        chain, j = [], v["sub"]
+        while j is not None:
+            chain.append(j)
+            j = SUBS[j][2]
+        if k == "ntuple":
+            return f"ntuple{v['sub']}"
+        return ":".join(f"sub{j}" for j in chain) + ":" + ("other0" if k == "float" else k)
     if k in ("bool", "path", "str", "int", "dict", "list", "tuple"):
         return k
     if k == "float":
@@ -375,7 +577,7 @@ def ty_token(world, v):
         return "other1"
     if k == "enum":
         ms = enum_members(world.enums[v["enum"]])
-        return "enum0:" + ",".join(f"{enc_text(n)}={val}" for n, val in ms)
+        return f"enum{enum_mix(v['enum'])}:" + ",".join(f"{enc_text(n)}={val}" for n, val in ms)
     raise ValueError(k)
 
 
@@ -487,7 +689,39 @@ def exec_case(case):
     for k in saved_env:
         del os.environ[k]
     core_snap = None
-    classes = []
+    classes = world.classes
+
+    def render_dict(d):
+        """a dict name -> object as the model prints it (`todict` / `updret` lines)"""
+        return " ".join(enc_text(n) + "=" + world.token(val) for n, val in d.items()) if d else "empty"
+
+    def dict_names(ci, d, what, key, i):
+        """oracle: `to_dict` / the dict `update` returns list the config values of the class - whichever of the two readings
+        the objects stored under the names have (descriptor or resolved value: not judged), the NAMES are exactly the declared
+        values"""
+        c = case["classes"][ci]
+        want = [v["name"] for v in c["values"]]
+        got = [n for n in d if n not in c.get("skipped", [])]
+        if sorted(map(str, got)) != sorted(want):
+            problems.append((key, f"class {ci}: {what} lists {got!r}, the configuration values of the class are {want!r}", i))
+
+    def observe_to_dict(ci, i):
+        cls = classes[ci][0]
+        try:
+            td = getattr(cls, "to_dict")
+        except Exception as e:
+            raise ImplBroken("api-missing", f"class {ci} has no to_dict: {e!r}")
+        try:
+            d = td()
+        except Exception as e:
+            raise ImplBroken("to-dict-raised", f"class {ci}: to_dict() raised {e!r}")
+        if not isinstance(d, dict):
+            raise ImplBroken("to-dict-names", f"class {ci}: to_dict() returned {d!r}, not a dict")
+        sk = case["classes"][ci].get("skipped", [])
+        lines.append(f"todict {ci}")
+        out.append(render_dict({n: val for n, val in d.items() if n not in sk}))
+        dict_names(ci, d, "to_dict()", "to-dict-names", i)
+        return d
 
     def absent(ci, name):
         return case["classes"][ci]["style"] != "meta" and desc_of(classes[ci][0], name) is None
@@ -542,6 +776,8 @@ def exec_case(case):
                 if want is not None and got is not None and got != want:
                     problems.append(("env-var-name", f"class {ci} value {v['name']}: env_var is {got!r}, expected "
                                      f"{want!r}", -1))
+        for ci in range(len(case["classes"])):
+            observe_to_dict(ci, -1)
         shadow_x = {}          # (ci, name) -> explicitly assigned object | FREE
         shadow_env = {}
 
@@ -631,21 +867,36 @@ def exec_case(case):
                 lines.append(f"unsetenv {enc_text(var)}")
                 os.environ.pop(var, None)
                 shadow_env.pop(var, None)
-            elif name == "update":
-                _, ci, pairs = op
+            elif name in ("update", "update_todict"):
+                if name == "update":
+                    _, ci, pairs = op
+                    d = {n: world.value(tok) for n, tok in pairs}
+                else:                               # C.update(C.to_dict()): the dictionary the class itself hands out
+                    _, ci = op
+                    d = dict(observe_to_dict(ci, i))
+                    pairs = None
                 cls = classes[ci][0]
-                d = {n: world.value(tok) for n, tok in pairs}
-                lines.append(f"update {ci} " + " ".join(f"{enc_text(n)}={model_token(tok)}" for n, tok in pairs))
+                args = " ".join(f"{enc_text(n)}={model_token(tok)}" for n, tok in pairs) if pairs is not None else \
+                    " ".join(f"{enc_text(str(n))}={world.token(val)}" for n, val in d.items())     # (already canonical tokens)
+                lines.append(f"updret {ci} " + args)
+                lines.append(f"update {ci} " + args)
                 known_names = {v["name"] for v in case["classes"][ci]["values"]}
                 unknown = [n for n in d if n not in known_names]
                 try:
                     upd = getattr(cls, "update")
                 except Exception as e:
                     raise ImplBroken("api-missing", f"class {ci} has no bulk update: {e!r}")
+                ret = None
                 try:
-                    upd(d)
+                    ret = upd(d)
                 except Exception as e:
                     exc = e
+                sk = case["classes"][ci].get("skipped", [])
+                out.append("err " + err_name(exc) if exc is not None else "ok none" if ret is None else
+                           "ok " + render_dict({n: val for n, val in ret.items() if n not in sk}) if isinstance(ret, dict)
+                           else "ok X" + type(ret).__name__)
+                if exc is None and isinstance(ret, dict) and not unknown:
+                    dict_names(ci, ret, f"update({d!r}) returned a dict that", "update-return-names", i)
                 if unknown:
                     if exc is None:
                         problems.append(("update-unknown-name-not-rejected", f"class {ci}: update({d!r}) returned "
@@ -703,7 +954,18 @@ def parses_directly(cls, v, text, expected):
 
 
 def kind_key(v):
-    return "custom" if v.get("parser") is not None else v["kind"]
+    """stable name of the kind of value in violation keys: the built-in kind, for enums what the class mixes in, and whether the
+    default is an instance of a user-defined subclass"""
+    if v.get("parser") is not None:
+        return "custom"
+    k = v["kind"]
+    if k == "enum":
+        k += {"StrMix": "-strmix", "StrEnum": "-strmix", "IntFlag": "-intflag"}.get(ENUMS[v["enum"]][1], "")
+    if k == "ntuple":
+        return "namedtuple"
+    if v.get("sub") is not None:
+        k += "-subclass"
+    return k
 
 
 def variant_key(world, v, text):
@@ -718,8 +980,12 @@ def variant_key(world, v, text):
         ms = world.enums[v["enum"]].__members__
         if text in ms:
             return "-by-name" + ("" if text.isupper() else "-not-upper-case")
-        return "-by-number"
-    if k in ("list", "tuple", "dict"):
+        try:
+            int(text)
+            return "-by-number"
+        except ValueError:
+            return "-by-other-spelling"         # another letter case, blanks around, the text value of a str-valued member
+    if k in ("list", "tuple", "dict", "ntuple"):
         return "-blanks" if any(p != p.strip() for p in text.replace("=", ",").split(",")) else ""
     return ""
 
@@ -739,7 +1005,8 @@ PREFIXES = ["VC20A", "VC20_B", "VC20X_Y_Z", "vc20low", "VC20A"]
 OVERRIDES = ["VC20OV_ONE", "VC20OV_TWO", "vc20_lower_var", "VC20A_A", "VC20SHARED"]
 POOL = [("float", "0.0"), ("float", "2.5"), ("float", "-1.5e-07"), ("float", "inf"), ("bytes", ""), ("ints", [1, 2]),
         ("inttuple", [0]), ("frozenset", []), ("object", 0), ("float", "nan")]
-KINDS = ["bool", "int", "float", "str", "path", "enum", "list", "tuple", "dict", "none", "int", "bool", "enum"]
+KINDS = ["bool", "int", "float", "str", "path", "enum", "list", "tuple", "dict", "none", "int", "bool", "enum", "enum", "ntuple"]
+P_SUB = 0.3         # share of the values of a subclassable kind whose default is an instance of a user-defined subclass
 BLANKS = ["", "", " ", "  ", "\t", " \n", "\xa0", "\x1c"]
 ALPHABET = "aAbBzZxX019 _-+=,;:./\t\ntTrRuUeEfFaAlLsS"
 WORDS = ["a", "b", "abc", "A b", "x_1", "", "0", "true", "Key", "v/w", "tmp/x.txt", "e-1"]
@@ -758,7 +1025,12 @@ def rnd_item(rng):
     return w.replace(",", "").replace("=", "").strip()
 
 
-def rnd_value_token(rng, kind, enum_idx=None, falsy=False):
+def rnd_value_token(rng, kind, enum_idx=None, falsy=False, sub=None):
+    """a random value of the kind; `sub`: as instance of the user-defined class #sub"""
+    if sub is not None:
+        if kind == "ntuple":
+            return f"U{sub}:T" + ",".join(enc_text(rnd_item(rng)) for _ in range(SUBS[sub][3]))
+        return f"U{sub}:" + rnd_value_token(rng, kind, enum_idx, falsy)
     if kind == "bool":
         return "B0" if falsy else rng.choice(["B0", "B1"])
     if kind == "int":
@@ -831,6 +1103,8 @@ def render_text(rng, v):
         return rng.choice([".", "a/b", "/tmp/x", "rel/file.txt", "a b/c", "a//b/", ""])
     if kind == "enum":
         n, val = rng.choice(ENUM_MEMBERS[v["enum"]])
+        if not isinstance(make_enum(v["enum"])[n].value, int):
+            val = make_enum(v["enum"])[n].value if rng.random() < 0.6 else val       # the member's text / some number
         r = rng.random()
         if r < 0.45:
             return n
@@ -839,8 +1113,11 @@ def render_text(rng, v):
         if r < 0.9:
             return rng.choice([n.lower(), n.upper(), rnd_case_of(rng, n)])
         return pad(rng, n)
-    if kind in ("list", "tuple"):
-        items = [rnd_item(rng) for _ in range(rng.randrange(1, 5))]
+    if kind in ("list", "tuple", "ntuple"):
+        n_items = rng.randrange(1, 5)
+        if kind == "ntuple" and rng.random() < 0.7:
+            n_items = SUBS[v["sub"]][3]
+        items = [rnd_item(rng) for _ in range(n_items)]
         if rng.random() < 0.5:
             items = [pad(rng, x) for x in items]
         return ",".join(items)
@@ -862,7 +1139,9 @@ def bad_text(rng, v):
     if kind == "float":
         return rng.choice(["", "abc", "1,5", "1.2.3", "e5", "--1.0", "1e", "in f"])
     if kind == "enum":
-        return rng.choice(["", "NOPE", "99", "-17", "1.0", "PLOT LY", "A,B", "1 1", "0x1"])
+        return rng.choice(["", "NOPE", "99", "-17", "1.0", "PLOT LY", "A,B", "1 1", "0x1", "fastest", "R|W", "Kind.FAST"])
+    if kind == "ntuple":
+        return rng.choice(["", "a", "a,b,c,d,e", ","])
     if kind == "dict":
         return rng.choice(["a", "a=b=c", "a=b,c", "=,", "a=b,,c=d", "a=b;c=d=e", ","])
     return rnd_text(rng)
@@ -881,12 +1160,22 @@ def clean_env_text(t):
     return t.replace("\x00", "")
 
 
+def rnd_type(rng, v):
+    """choose the type of a value spec of kind v["kind"]: which enum class, or (with probability P_SUB) a user-defined subclass"""
+    kind = v["kind"]
+    if kind == "enum":
+        v["enum"] = rng.randrange(len(ENUMS))
+    elif kind == "ntuple":
+        v["sub"] = rng.choice(SUBS_OF_KIND["ntuple"])
+    elif kind in SUBS_OF_KIND and rng.random() < P_SUB:
+        v["sub"] = rng.choice(SUBS_OF_KIND[kind])
+
+
 def gen_value_spec(rng, name, style):
     kind = rng.choice(KINDS)
     v = {"name": name, "kind": kind}
-    if kind == "enum":
-        v["enum"] = rng.randrange(len(ENUMS))
-    v["default"] = rnd_value_token(rng, kind, v.get("enum"), falsy=rng.random() < 0.25)
+    rnd_type(rng, v)
+    v["default"] = rnd_value_token(rng, kind, v.get("enum"), falsy=rng.random() < 0.25, sub=v.get("sub"))
     r = rng.random()
     if r < 0.18:
         v["parser"] = rng.randrange(len(PARSERS))
@@ -1003,12 +1292,14 @@ def gen_case(rng, n_ops, with_core):
         elif r < 0.62:
             rr = rng.random()
             if rr < 0.55:
-                tok = rnd_value_token(rng, v["kind"], v.get("enum"), falsy=rng.random() < 0.45)
+                tok = rnd_value_token(rng, v["kind"], v.get("enum"), falsy=rng.random() < 0.45,
+                                      sub=v.get("sub") if rng.random() < 0.7 or v["kind"] == "ntuple" else None)
             elif rr < 0.67:
                 tok = "N"
             else:
                 k2 = rng.choice(KINDS)
-                tok = rnd_value_token(rng, k2, rng.randrange(1, len(ENUMS)) if k2 == "enum" else None) \
+                tok = rnd_value_token(rng, k2, rng.randrange(1, len(ENUMS)) if k2 == "enum" else None,
+                                      sub=rng.choice(SUBS_OF_KIND["ntuple"]) if k2 == "ntuple" else None) \
                     if rng.random() < 0.6 else "O%d" % rng.randrange(len(POOL))
                 if tok.startswith("E"):
                     case.setdefault("enums", [])
@@ -1024,10 +1315,15 @@ def gen_case(rng, n_ops, with_core):
                     assigned.discard((ci, v["name"]))
             else:
                 continue
+        elif r > 0.985:
+            case["ops"].append(["update_todict", ci])          # C.update(C.to_dict())
+            for cj, w in allv:
+                if cj == ci:
+                    assigned.add((ci, w["name"]))
         else:
             vs = [w for cj, w in allv if cj == ci]
             chosen = rng.sample(vs, rng.randrange(0, min(4, len(vs)) + 1))
-            pairs = [[w["name"], rnd_value_token(rng, w["kind"], w.get("enum"), falsy=rng.random() < 0.3)]
+            pairs = [[w["name"], rnd_value_token(rng, w["kind"], w.get("enum"), falsy=rng.random() < 0.3, sub=w.get("sub"))]
                      for w in chosen]
             if rng.random() < 0.35:
                 others = [w["name"] for cj, w in allv if cj != ci and w["name"] not in {x["name"] for x in vs}]
@@ -1098,6 +1394,56 @@ CORPUS = [
              ["delete", 0, "\xc4B"], ["setenv", "VC20A_MIXED", "5"], ["setenv", "VC20A__PRIV", "zz"],
              ["setenv", "VC20A_\u6570", "7"], ["setenv", "VC20A_\xc4B", "late"], ["setenv", "VC20A_X1", "6"],
              ["update", 0, [["Mixed", "I1"]]], ["update", 0, [["_X", "I1"], ["X1", "I2"]]], ["update", 0, [["\xe4B", "I1"]]]]},
+    # types related by subclassing (1): enum classes that mix in a data type - (str, Enum), StrEnum, (int, Enum), IntEnum, IntFlag.
+    # The text is parsed to the TYPE OF THE DEFAULT: the member by name / number, unknown names raise
+    {"classes": [_cls([{"name": "MODE", "kind": "enum", "enum": 6, "default": "E6#1"},
+                       {"name": "A", "kind": "enum", "enum": 7, "default": "E7#2"},
+                       {"name": "B", "kind": "enum", "enum": 8, "default": "E8#1"},
+                       {"name": "FLAG", "kind": "enum", "enum": 9, "default": "E9#4"},
+                       {"name": "Q", "kind": "enum", "enum": 2, "default": "E2#0"}])], "pool": POOL,
+     "ops": [["setenv", "VC20A_MODE", "SLOW"], ["setenv", "VC20A_MODE", "Very_Slow"], ["setenv", "VC20A_MODE", "slow"],
+             ["setenv", "VC20A_MODE", "very-slow"], ["setenv", "VC20A_MODE", "medium"], ["setenv", "VC20A_MODE", "2"],
+             ["setenv", "VC20A_MODE", "10"], ["setenv", "VC20A_A", "FINE"], ["setenv", "VC20A_A", "final_pass"],
+             ["setenv", "VC20A_A", "coarse"], ["setenv", "VC20A_B", "HIGH"], ["setenv", "VC20A_B", " 5 "],
+             ["setenv", "VC20A_B", "3"], ["setenv", "VC20A_FLAG", "W"], ["setenv", "VC20A_FLAG", "6"],
+             ["setenv", "VC20A_FLAG", "rw"], ["setenv", "VC20A_FLAG", "R|W"], ["setenv", "VC20A_Q", "-1"],
+             ["setenv", "VC20A_Q", "BIG"], ["assign", 0, "MODE", "E6#2"], ["setenv", "VC20A_MODE", "FAST"],
+             ["delete", 0, "MODE"], ["unsetenv", "VC20A_MODE"], ["update", 0, [["A", "E7#1"], ["FLAG", "E9#6"]]],
+             ["delete", 0, "A"]]},
+    # (2): defaults that are instances of user-defined subclasses of str / int / float / Path / list / tuple / dict, and
+    # NamedTuples: same text form as the built-in type, the result is an instance of the subclass
+    {"classes": [_cls([{"name": "NAME", "kind": "str", "sub": 0, "default": "U0:S" + enc_text("dflt")},
+                       {"name": "A", "kind": "int", "sub": 1, "default": "U1:I7"},
+                       {"name": "X1", "kind": "float", "sub": 2, "default": "U2:O1"},
+                       {"name": "ITEMS", "kind": "list", "sub": 3, "default": "U3:L" + enc_text("x")},
+                       {"name": "B", "kind": "list", "sub": 7, "default": "U7:L"},
+                       {"name": "Q", "kind": "tuple", "sub": 4, "default": "U4:T"},
+                       {"name": "PAIRS", "kind": "dict", "sub": 5, "default": "U5:D"},
+                       {"name": "Z_9", "kind": "dict", "sub": 8, "default": "U8:D" + enc_text("k") + ":" + enc_text("v")},
+                       {"name": "PATH_", "kind": "path", "sub": 6, "default": "U6:P" + enc_text(".")},
+                       {"name": "R2D2", "kind": "ntuple", "sub": 9, "default": "U9:T" + enc_text("a") + "," + enc_text("b")},
+                       {"name": "UTF8", "kind": "str", "sub": 11, "default": "U11:Se"}])], "pool": POOL,
+     "ops": [["setenv", "VC20A_NAME", "abc"], ["setenv", "VC20A_NAME", " a,b "], ["setenv", "VC20A_A", " 12 "],
+             ["setenv", "VC20A_A", "x"], ["setenv", "VC20A_X1", "1e3"], ["setenv", "VC20A_ITEMS", "a, b"],
+             ["setenv", "VC20A_B", "p,q , r"], ["setenv", "VC20A_Q", " x ,,y"], ["setenv", "VC20A_PAIRS", "a=1, b = 2"],
+             ["setenv", "VC20A_PAIRS", "a"], ["setenv", "VC20A_Z_9", "k=1,j=2"], ["setenv", "VC20A_PATH_", "a/b"],
+             ["setenv", "VC20A_R2D2", "x,y"], ["setenv", "VC20A_R2D2", "x"], ["setenv", "VC20A_UTF8", "text"],
+             ["assign", 0, "NAME", "S" + enc_text("plain")], ["assign", 0, "ITEMS", "U3:L"], ["delete", 0, "NAME"],
+             ["update", 0, [["A", "U1:I0"], ["Q", "T"]]], ["delete", 0, "A"]]},
+    # (3): bool is a subclass of int - a bool default reads true / false only, an int default no words; True assigned to an int value
+    # stays True
+    {"classes": [_cls([{"name": "FLAG", "kind": "bool", "default": "B0"}, {"name": "A", "kind": "int", "default": "I0"},
+                       {"name": "B", "kind": "int", "sub": 1, "default": "U1:I1"}])], "pool": POOL,
+     "ops": [["setenv", "VC20A_FLAG", "1"], ["setenv", "VC20A_FLAG", "TRUE"], ["setenv", "VC20A_A", "True"],
+             ["setenv", "VC20A_A", "1"], ["setenv", "VC20A_B", "false"], ["setenv", "VC20A_B", "0"],
+             ["assign", 0, "A", "B1"], ["assign", 0, "FLAG", "I0"], ["delete", 0, "A"], ["delete", 0, "FLAG"]]},
+    # to_dict lists exactly the configuration values; update(to_dict()) is accepted and stores what the dictionary holds
+    {"classes": [_cls([{"name": "A", "kind": "int", "default": "I1"}, {"name": "NAME", "kind": "str", "default": "S" + enc_text("n")}],
+                      extras=[list(x) for x in PLAIN_ATTRS[:4]]),
+                 _cls([{"name": "A", "kind": "int", "default": "I2"}, {"name": "lower", "kind": "bool", "default": "B0"}],
+                      prefix="VC20_B", style="meta")], "pool": POOL,
+     "ops": [["setenv", "VC20A_A", "5"], ["update", 0, [["A", "I3"]]], ["update_todict", 0], ["setenv", "VC20A_A", "6"],
+             ["delete", 0, "A"], ["update_todict", 1], ["assign", 1, "A", "I9"], ["delete", 1, "lower"]]},
 ]
 
 
@@ -1132,7 +1478,7 @@ def shrink(case, key):
             break
         ops = []
         for op in cur["ops"]:
-            if op[0] in ("assign", "delete", "update"):
+            if op[0] in ("assign", "delete", "update", "update_todict"):
                 if op[1] == ci:
                     continue
                 op = [op[0], op[1] - (1 if op[1] > ci else 0)] + list(op[2:])
@@ -1166,7 +1512,9 @@ HOW = ("driver/props/c20.py exec_case(case): build the classes described under `
        "`extras` (plain attributes that must not become config values); meta = metaclass deriving from ConfigMeta with "
        "ConfigValue descriptors; core = pyroll.core.Config with the names of its class body), apply `ops` with os.environ "
        "controlled, read every value after every op "
-       "(tokens: I=int B=bool S/P=text as code points, E<enum>#<value>, L/T/D collections, O<i>=pool object, N=None). "
+       "(tokens: I=int B=bool S/P=text as code points, E<enum>#<member id> with the enum classes of ENUMS, L/T/D collections, "
+       "O<i>=pool object, N=None, U<k>:<value>=instance of the user-defined class SUBS[k], C<class>:<name>=the descriptor; "
+       "value specs: `sub`=k means the default is an instance of SUBS[k]; op update_todict = C.update(C.to_dict())). "
        "./check C20 --replay <this file> re-runs it.")
 
 
@@ -1183,16 +1531,33 @@ def report(ctx, case, problems):
                                                       "how": HOW})
 
 
+def type_label(v):
+    """the class of the default, as one would write it"""
+    if v["kind"] == "enum":
+        name, base, _ = ENUMS[v["enum"]]
+        return "enum " + name + {"real": "(Enum) of pyroll", "Enum": "(Enum)", "IntEnum": "(IntEnum)", "IntMix": "(int, Enum)",
+                                 "StrMix": "(str, Enum)", "StrEnum": "(StrEnum)", "IntFlag": "(IntFlag)"}[base]
+    if v.get("sub") is not None:
+        cls, kind, parent, arity = SUBS[v["sub"]]
+        return f"{cls.__name__}({'NamedTuple' if arity else ', '.join(b.__name__ for b in cls.__bases__)})"
+    return v["kind"]
+
+
 def readable(case):
     out = []
     for ci, c in enumerate(case["classes"]):
         out.append(f"class {ci}: style={c['style']} prefix={c['prefix']!r} values=" + ", ".join(
-            f"{v['name']}:{v['kind']}={v['default']}" + (f" parser#{v['parser']}" if v.get("parser") is not None else "")
+            f"{v['name']}:{type_label(v)}={v['default']}" + (f" parser#{v['parser']}" if v.get("parser") is not None else "")
             + (f" env_var={v['override']}" if v.get("override") else "") for v in c["values"])
                    + (" | plain attributes: " + ", ".join(f"{n}={val!r}" for n, val in c["extras"]) if c.get("extras") else ""))
     for op in case["ops"]:
         out.append(" ".join(json.dumps(x) if not isinstance(x, str) else repr(x) for x in op))
     return out
+
+
+# the classes `ConfigValue.parse` dispatches on, in the order the model's `lattice` line lists them
+DISPATCH_CLASSES = [("bool", bool), ("int", int), ("path", pathlib.Path), ("str", str), ("enum", enum.Enum),
+                    ("mapping", collections.abc.Mapping), ("iterable", collections.abc.Iterable)]
 
 
 # ---------------------------------------------------------------------------------------------------------------------
@@ -1213,11 +1578,10 @@ def parse_stream(ctx, n):
     for _ in range(n):
         kind = rng.choice(KINDS)
         v = {"name": "X", "kind": kind}
-        if kind == "enum":
-            v["enum"] = rng.randrange(len(ENUMS))
+        rnd_type(rng, v)
         if rng.random() < 0.1:
             v["parser"] = rng.randrange(len(PARSERS))
-        v["default"] = rnd_value_token(rng, kind, v.get("enum"))
+        v["default"] = rnd_value_token(rng, kind, v.get("enum"), sub=v.get("sub"))
         text = clean_env_text(env_text(rng, v))
         try:
             cv = impl_call(f"ConfigValue({world.value(v['default'])!r}, parser=…)", CV, world.value(v["default"]),
@@ -1236,7 +1600,7 @@ def parse_stream(ctx, n):
         out.append("ok " + world.token(got) if exc is None else "err " + err_name(exc))
         exp = expect_parse(world, v, text)
         bad = judge(world, exp, got, exc)
-        ctx.case(["parse", kind, v.get("enum"), v.get("parser"), text], nontrivial=exp[0] != "free" and text != "")
+        ctx.case(["parse", kind, v.get("enum"), v.get("sub"), v.get("parser"), text], nontrivial=exp[0] != "free" and text != "")
         ctx.count("parse:" + kind_key(v))
         ctx.count("parse-expect:" + exp[0])
         if exc is not None:
@@ -1248,6 +1612,22 @@ def parse_stream(ctx, n):
                           {"parse": {"value": v, "text": text}, "problem": bad,
                            "how": "pyroll.core.config.ConfigValue(<default of that kind>, parser=PARSERS[i] if given)"
                                   ".parse(text); ./check C20 --replay <this file>"})
+    # the type lattice of the model (`Ty.exact`, `Ty.supers`) against CPython's class relations, for every type the generators use
+    shapes = [{"kind": k} for k in ("bool", "int", "float", "str", "path", "list", "tuple", "dict", "none")]
+    shapes += [{"kind": "enum", "enum": i} for i in range(len(ENUMS))]
+    shapes += [{"kind": kind, "sub": k} for k, (_, kind, _, _) in enumerate(SUBS)]
+    tests = (ctx.notes.get("translated") or {}).get("parseTests")      # the tests of the source as the translator read them
+    dispatch = dict(DISPATCH_CLASSES)
+    for v in shapes:
+        T = type_of(world, v)
+        lines.append("lattice " + ty_token(world, v))
+        out.append(next((n for n, D in DISPATCH_CLASSES if T is D), "none") + " "
+                   + ",".join(n for n, D in DISPATCH_CLASSES if issubclass(T, D)))
+        if tests:       # which `if` of parse CPython's own `is` / `issubclass` select for this type (no custom parser)
+            hit = next((i for i, (b, kind, _) in enumerate(tests) if b != "custom" and
+                        ((T is dispatch[b]) if kind == "identity" else issubclass(T, dispatch[b]))), None)
+            lines.append("select " + ty_token(world, v))
+            out.append("none" if hit is None else f"{hit} {tests[hit][0]}")
     # the text forms used by the theorems: str(int) and ','.join
     for _ in range(max(20, n // 10)):
         k = rng.choice([0, 1, -1, 9, 10, -10, 99, 100, 12345678901234567890, rng.randrange(-10 ** 9, 10 ** 9)])
@@ -1304,7 +1684,8 @@ def run(ctx):
         segments.append((case, lines, out, world))
         all_lines += lines
         ops = [o[0] for o in case["ops"]]
-        nontriv = any(o in ("setenv", "unsetenv") for o in ops) and any(o in ("assign", "delete", "update") for o in ops)
+        nontriv = any(o in ("setenv", "unsetenv") for o in ops) and \
+            any(o in ("assign", "delete", "update", "update_todict") for o in ops)
         ctx.case(case, nontriv)
         for o in ops:
             ctx.count("op:" + o)
